@@ -632,6 +632,8 @@ pub fn run_case(line: &str) -> (String, Vec<String>) {
         let o = run_parser(&c.fmt, &c.ty, &c.mode, mk(ev.clone()), *chunk).text(false);
         if o != base_text {
             fails.push(format!("C01:result depends on the read schedule: one-shot={} {}={}", base_text, name, o));
+            // the line/column oracle of the text formats applies to ASCII AIGER only
+            fails.extend(crate::eng_cnf::variant_oracles(&delivered, fault, name, &o, c.expect.as_ref(), c.tok, c.fmt == "aag"));
             break;
         }
     }
